@@ -801,6 +801,7 @@ async fn lives_case(out: &mut Out, rng: &mut Rng, cap: u64) {
             text.push_str(&format!(";{}", l));
             out.op(l, format!("calls={} segs={}", store.calls(), segs_of(&store)));
         }
+        let mut sent_this_life: Vec<Upd> = Vec::new();
         let nb = rng.range(1, 4);
         for bi in 0..nb {
             let n = rng.below(4);
@@ -812,6 +813,7 @@ async fn lives_case(out: &mut Out, rng: &mut Rng, cap: u64) {
                 let line = sd_line("ASEND", &u);
                 text.push_str(&format!(";{}", line));
                 out.op(line, if r.is_ok() { "ok".into() } else { "err disconnected".to_string() });
+                sent_this_life.push(u);
             }
             tokio::time::sleep(Duration::from_millis(25)).await;
             out.op("ADRAIN".into(), "ok".into());
@@ -863,6 +865,23 @@ async fn lives_case(out: &mut Out, rng: &mut Rng, cap: u64) {
                 out.op("ARUN".into(), format!("calls={} segs={}", store.calls(), segs_of(&store)));
                 text.push_str(";SHUTDOWN");
                 image = store.image();
+                // oracle (real code only): a clean shutdown without a store fault and far from the
+                // back-pressure threshold leaves every update of this life in a listed segment —
+                // with or without the compaction worker next to the actor
+                if life.faults.is_empty() && life.wb.backpressure_threshold_bytes >= 1 << 30 {
+                    if let Ok(r) = recover_image(&image, rid).await {
+                        let fold = crate::c11::fold_recovered(&r);
+                        for u in &sent_this_life {
+                            let absorbed = fold.get(&u.0).map_or(false, |cur| MRv::from_real(&cur.merge(&u.1)).show() == MRv::from_real(cur).show());
+                            if !absorbed {
+                                out.violation("C12:workers:update-lost-without-fault",
+                                    &format!("life {} (compaction worker: {}): after a clean shutdown (no store fault, back-pressure threshold never reached, mailbox far below capacity) the update of key {} handed to the sink is in no listed segment", li, life.compaction.is_some(), u.0),
+                                    json!({"workload": text, "key": hex(u.0.as_bytes())}));
+                                break;
+                            }
+                        }
+                    }
+                }
                 out.count("x:lives:end:clean-shutdown");
             }
             _ => {
